@@ -155,8 +155,8 @@ PROPS["C20"] = dict(
     model_files=["Base.v", "Loop.v"],
     proof_files=["Loop_proofs.v"],
     check_files=["C05_check.v"],
-    theorems=["C20_history_independent"],
-    partial=["for templates that read the instance state (min_utxo) independence from the history is explored over generated histories, not proved: the loop is meant to wash the starting point out, which depends on convergence (C05)"],
+    theorems=["C20_history_independent", "C20_history_independent_after_reset"],
+    partial=["the theorems are about Loop.v, where resolve starts from the reset state; that resolve_tx resets the real instance (Compiler::reset clears latest_tx_body, the only state a pass reads) is the per-history comparison of clause 101"],
     trusted_base=LOOP_TB,
     assumptions=["a template without min_utxo never reads Compiler.latest_tx_body (reduce_op is the only reader; checked by clause 1 on every such target)"],
     check_names={101: "same payload, hash and fee (or same error variant) as on a fresh instance", 102: "a panic on the reused or the fresh instance"},
@@ -284,7 +284,8 @@ PROPS["C13"] = dict(
                  132: "accepted, lowering panics: missing field without spread", 133: "accepted, lowering panics: asset constructor without amount",
                  134: "accepted, lowering panics: name of the wrong kind as a value", 135: "accepted, lowering fails: arity / unknown function",
                  136: "accepted, lowering fails: malformed hex literal", 137: "accepted, lowering fails: unresolved chain of definitions",
-                 138: "accepted, lowering fails: directive lacks a required field", 139: "accepted, lowering fails: invalid property", 140: "accepted, lowering fails: invalid symbol"},
+                 138: "accepted, lowering fails: directive lacks a required field", 139: "accepted, lowering fails: invalid property", 140: "accepted, lowering fails: invalid symbol",
+                 141: "a program with constructor-form policy definitions is accepted (or panics) and does not lower"},
 )
 PROPS["C17"] = dict(
     level="proof", runner="C17", needs_tx3c=True, model_files=FRONT_MODEL, proof_files=["Front_proofs.v", "Lower_names.v"], check_files=["Front_check.v"],
